@@ -330,10 +330,27 @@ def family_dvars():
                                acons=[(('d', 1), {}, -INF, 2.0)], obj=('min', ('d', 0), {2: 1.0})))
 
 
+def family_fracint():
+    """comparisons of integer-valued expressions with fractional constants (rounding of the threshold)
+    and of continuous expressions with constants off / on the grid, in every comparison operator and
+    in positive / negative / reified context"""
+    exprs = [('x', X), ('x+b', ('add', X, B)), ('2x-b', ('sub', ('mul', N(2), X), B)), ('abs(x)', ('abs', X)), ('y', Y), ('x+y', ('add', X, Y))]
+    consts = [0.5, 1.5, -0.5, 1.0, -1.25, 0.25]
+    for en, e in exprs:
+        for c in consts:
+            for op in ('lt', 'le', 'eq', 'ge', 'gt', 'ne'):
+                a = (op, e, N(c))
+                if en in ('y', 'x+y') and c in (-1.25, 0.25): continue     # thresholds stay on the 0.5 grid for continuous bodies
+                yield ('fracint %s %s %g root' % (en, op, c), Model(V3, lcons=[a]))
+                yield ('fracint %s %s %g or-b' % (en, op, c), Model(V3, lcons=[('or', a, ('ge', B, N(1)))]))
+                yield ('fracint %s %s %g iff-b' % (en, op, c), Model(V3, lcons=[('iff', a, ('ge', B, N(1)))]))
+                yield ('fracint %s %s %g not' % (en, op, c), Model(V3, lcons=[('not', a)], obj=('min', None, {0: 1.0, 1: 1.0})))
+
+
 FAMILIES = {
     'shapes': family_shapes, 'sharing': family_sharing, 'canon': family_canon, 'uenc': family_uenc,
     'bounds': family_bounds, 'linmix': family_linear_mix, 'alldiffcont': family_alldiff_cont,
-    'compl': family_compl, 'sos': family_sos, 'dvars': family_dvars,
+    'compl': family_compl, 'sos': family_sos, 'dvars': family_dvars, 'fracint': family_fracint,
 }
 
 
